@@ -16,6 +16,7 @@ import (
 	"errors"
 	"fmt"
 	"io"
+	"os"
 	"sync"
 	"unsafe"
 
@@ -330,11 +331,16 @@ func (f *File) apply(p []byte, off int64) {
 	}
 }
 
+var debugIO = os.Getenv("VERIF_DEBUG_IO") != ""
+
 func (f *File) WriteAt(p []byte, off int64) (int, error) {
 	sched.Step("io.write")
 	f.d.mu.Lock()
 	defer f.d.mu.Unlock()
 	d := f.d
+	if debugIO {
+		fmt.Printf("    [io] thread %d writes %d bytes at page %d (+%d)\n", sched.Self(), len(p), off/int64(d.PageSize), off%int64(d.PageSize))
+	}
 	switch d.fault(CallWrite) {
 	case FaultError, FaultNoSpace:
 		return 0, ErrInjected
